@@ -23,6 +23,9 @@ type chainCase struct {
 	Phylip string `json:"phylip"`
 	// Pipe[i]: step i reads its input from standard input and writes to standard output
 	Pipe []bool `json:"pipe"`
+	// Auto[i]: step i reads its input with --auto-detect instead of the format flag (documented for
+	// fasta, nexus, phylip - read as not strict - and clustal)
+	Auto []bool `json:"auto"`
 }
 
 var chainFormats = []string{"fasta", "phylip", "nexus", "clustal"}
@@ -77,6 +80,7 @@ func genChain(t *rapid.T) chainCase {
 	c.Phylip = rapid.SampledFrom([]string{"", "", "strict", "one-line", "no-block"}).Draw(t, "phylip")
 	for i := 0; i <= k; i++ {
 		c.Pipe = append(c.Pipe, rapid.IntRange(0, 2).Draw(t, "pipe") == 0)
+		c.Auto = append(c.Auto, rapid.IntRange(0, 3).Draw(t, "auto") == 0)
 	}
 	// names: whatever every format met along the chain can represent
 	var d nameDom
@@ -112,8 +116,13 @@ func checkChain(c chainCase) (o pbt.Outcome, err error) {
 	cur, curFormat := start, first
 	steps := append(append([]string{}, c.Formats[1:]...), first)
 	var trace []string
+	autoUsed := false
 	for i, next := range steps {
 		args := append([]string{"reformat", next}, readFlags(curFormat, c.Phylip)...)
+		if len(c.Auto) > 0 && c.Auto[i%len(c.Auto)] && !(curFormat == "phylip" && c.Phylip == "strict") {
+			args = []string{"reformat", next, "--auto-detect"}
+			autoUsed = true
+		}
 		args = append(args, writeFlags(next, c.Phylip)...)
 		var res cli.Result
 		if c.Pipe[i%len(c.Pipe)] {
@@ -170,6 +179,9 @@ func checkChain(c chainCase) (o pbt.Outcome, err error) {
 	if hostile {
 		o.Class("a name of the hostile dictionary")
 	}
+	if autoUsed {
+		o.Class("a step reads with --auto-detect")
+	}
 	if hasNonASCII(c.Rows) {
 		o.Class("a name with multi-byte characters")
 		if c.Phylip == "strict" && distinct["phylip"] {
@@ -210,14 +222,15 @@ func TestReformatChain(t *testing.T) {
 // ---- seqboot + compute distance == distboot ---------------------------------------------------
 
 type bootCase struct {
-	Rows   []gen.Row `json:"rows"`
-	N      int       `json:"n"`
-	Seed   int64     `json:"seed"`
-	Model  string    `json:"model"`
-	RmGaps bool      `json:"rmgaps"`
-	Alpha  string    `json:"alpha"` // "" = no gamma
-	Frac   string    `json:"frac"`  // "" = full bootstrap
-	Gz     bool      `json:"gz"`    // the seqboot side writes gzipped replicates (--gz)
+	Protein bool      `json:"protein"`
+	Rows    []gen.Row `json:"rows"`
+	N       int       `json:"n"`
+	Seed    int64     `json:"seed"`
+	Model   string    `json:"model"`
+	RmGaps  bool      `json:"rmgaps"`
+	Alpha   string    `json:"alpha"` // "" = no gamma
+	Frac    string    `json:"frac"`  // "" = full bootstrap
+	Gz      bool      `json:"gz"`    // the seqboot side writes gzipped replicates (--gz)
 	// Multi: the replicates are written in Phylip (-p), put one after the other in one file and
 	// given to a single compute distance execution (a multi-alignment input)
 	Multi   bool  `json:"multi"`
@@ -226,10 +239,19 @@ type bootCase struct {
 
 func genBoot(t *rapid.T) bootCase {
 	var c bootCase
-	c.Rows = tiedAlignment(t, false, 2, 8, 4, 40)
+	c.Protein = rapid.IntRange(0, 3).Draw(t, "protein") == 0
+	if c.Protein {
+		c.Rows = tiedAlignment(t, true, 2, 6, 4, 30)
+	} else {
+		c.Rows = tiedAlignment(t, false, 2, 8, 4, 40)
+	}
 	c.N = rapid.IntRange(1, pbt.Scale(6, 12)).Draw(t, "n")
 	c.Seed = genSeed(t)
 	c.Model = rapid.SampledFrom([]string{"jc", "k2p", "pdist", "f81", "tn93", "f84"}).Draw(t, "model")
+	if c.Protein {
+		// the equivalence is stated for "distance matrices", not for nucleotide models only
+		c.Model = rapid.SampledFrom([]string{"lg", "wag", "jtt", "dayoff", "mtrev", "hivb"}).Draw(t, "aamodel")
+	}
 	c.RmGaps = rapid.Bool().Draw(t, "rmgaps")
 	c.Alpha = rapid.SampledFrom([]string{"", "", "0.5", "1", "2.5"}).Draw(t, "alpha")
 	c.Frac = rapid.SampledFrom([]string{"", "", "0.5", "0.9"}).Draw(t, "frac")
@@ -250,6 +272,11 @@ func checkBoot(c bootCase) (o pbt.Outcome, err error) {
 		common = append(common, "-f", c.Frac)
 	}
 	dist := []string{"-m", c.Model}
+	if c.Protein {
+		// a FASTA replicate does not carry its alphabet and a resampled protein alignment can spell
+		// nucleotide codes only: the alphabet is stated, as the documentation of --alphabet provides
+		dist = append(dist, "--alphabet", "aa")
+	}
 	if c.RmGaps {
 		dist = append(dist, "-r")
 	}
@@ -348,6 +375,7 @@ func checkBoot(c bootCase) (o pbt.Outcome, err error) {
 	}
 	o.NonTrivial = strings.TrimSpace(db.Stdout) != "" && len(c.Rows) >= 2
 	o.Class("model=%s", c.Model)
+	o.Class("protein=%v", c.Protein)
 	o.Class(seedClass(c.Seed))
 	o.Class("n>1=%v", c.N > 1)
 	o.Class("partial=%v", c.Frac != "")
